@@ -64,7 +64,7 @@ func waitLive(want int) int {
 }
 
 func checkC16(c *ctx) {
-	c.Rule = "every sequence up to length L (quick 4, thorough 6) over the events {open a handle with exclusion bitmap e0 and search, open with e1 and search, close the most recent handle, run one expiry pass of the cache (verif hook; the 1 s monitor is disabled)} on an opened segment, for pairs of exclusion bitmaps (one of them empty or nil); after every event the number of live native indexes, the presence of a cache entry, double closes and uses after close are compared with the extracted cache machine (VecCache.v, eviction decided by the observed idle bit AND refs <= 0); every search result is compared with the specification of a FRESH segment; finally handles are closed, an expiry pass runs and the segment is closed: nothing may remain; plus concurrent searchers with the expiry pass running (race detector); plus, on a segment with 1200 vectors (clustered index), ten filtered / unfiltered searches (k from 1 to 700, eligible fractions 1/10 to 4/5, exclusions) run in several orders with expiry passes in between - each answer must equal the same search on a freshly opened copy; plus rounds in which 8 goroutines make the first open of a field at the same instant (spin barrier) and the engine accounting must return to its base after the segment is closed; non-trivial = sequence with >= 2 opens with different bitmaps or an eviction between opens"
+	c.Rule = "every sequence up to length L (quick 4, thorough 6) over the events {open a handle with exclusion bitmap e0 and search, open with e1 and search, close the most recent handle, run one expiry pass of the cache (verif hook; the 1 s monitor is disabled)} on an opened segment, for pairs of exclusion bitmaps (one of them empty or nil); after every event the number of live native indexes, the presence of a cache entry, double closes and uses after close are compared with the extracted cache machine (VecCache.v, eviction decided by the observed idle bit AND refs <= 0); every search result is compared with the specification of a FRESH segment; finally handles are closed, an expiry pass runs and the segment is closed: nothing may remain; plus concurrent searchers with the expiry pass running (race detector); plus, on a segment with 1200 vectors (clustered index), ten filtered / unfiltered searches (k from 1 to 700, eligible fractions 1/10 to 4/5, exclusions) run in several orders with expiry passes in between - each answer must equal the same search on a freshly opened copy; plus rounds in which two vector fields are cached and expire in the same pass; plus rounds in which 8 goroutines make the first open of a field at the same instant (spin barrier) and the engine accounting must return to its base after the segment is closed; non-trivial = sequence with >= 2 opens with different bitmaps or an eviction between opens"
 	c.Assumptions = append(c.Assumptions, "stand-in engine (see C14); the EWMA numerics of the expiry decision are not modelled: the model takes the observed 'idle' bit as an oracle and decides eviction by it AND by the reference count",
 		"data-race freedom observed with the race detector only")
 	// set once, before any vector-cache activity in this process, and never written again: the monitor
@@ -283,6 +283,10 @@ func checkC16(c *ctx) {
 		c.Violation("C16 search results must not depend on earlier searches of the same segment\n"+bad, false)
 		return
 	}
+	if bad := twoFieldsExpireTogether(c); bad != "" {
+		c.Violation("C16 index lifetime with two cached vector fields expiring in one pass\n"+bad, false)
+		return
+	}
 	if bad := simultaneousFirstOpens(c); bad != "" {
 		c.Violation("C16 index lifetime under simultaneous first opens\n"+bad, false)
 		return
@@ -354,6 +358,7 @@ func checkC19(c *ctx) {
 				bitmaps = append(bitmaps, bitmapOf(sc.drops[i]))
 			}
 		}
+		runNo := 0
 		run := func() (error, string) {
 			if sc.build != nil {
 				sb, _, err := zh.Build(sc.build, 1026)
@@ -363,6 +368,11 @@ func checkC19(c *ctx) {
 				return err, ""
 			}
 			path := zh.TmpPath("c19")
+			runNo++
+			if runNo%2 == 0 {
+				// something already sits at the output path (the remains of an earlier attempt)
+				mustH(os.WriteFile(path, make([]byte, 300), 0o600))
+			}
 			var err error
 			func() {
 				defer func() {
